@@ -29,6 +29,7 @@ type c11pkg struct {
 	calls    []c11call
 	twoFiles bool
 	userFn   bool
+	lateUse  bool // the user functions are called only from the last file (two-file layout)
 	pregen   bool // derived.gen.go already holds the output for the first call alone (an earlier run)
 }
 
@@ -44,6 +45,9 @@ func (p c11pkg) label() string {
 	if p.userFn {
 		l += " [user funcs deriveEqual_/deriveCompare_ called]"
 	}
+	if p.lateUse {
+		l += " [those user funcs are defined and called only in the last file; all derive calls are in the first]"
+	}
 	if p.pregen {
 		l += " [after an earlier run on the first call alone]"
 	}
@@ -53,12 +57,16 @@ func (p c11pkg) label() string {
 func (p c11pkg) files() pkgFiles {
 	var a, b strings.Builder
 	a.WriteString("package m\n\ntype T1 struct{ A int }\ntype T2 struct{ B int }\ntype T3 struct{ C int }\n\n")
-	if p.userFn {
+	if p.userFn && !p.lateUse {
 		a.WriteString("func deriveEqual_(x int) int { return x }\nfunc deriveCompare_(x int) int { return x }\n\nvar _ = deriveEqual_(1) + deriveCompare_(2)\n\n")
 	}
+
 	split := len(p.calls)
 	if p.twoFiles {
 		split = 1
+	}
+	if p.lateUse {
+		split = len(p.calls) // every derive call in the first file, the user functions' only use in the last
 	}
 	a.WriteString("func useA() {\n")
 	for _, c := range p.calls[:split] {
@@ -67,7 +75,11 @@ func (p c11pkg) files() pkgFiles {
 	a.WriteString("}\n")
 	fs := pkgFiles{"a.go": a.String()}
 	if p.twoFiles {
-		b.WriteString("package m\n\nfunc useB() {\n")
+		b.WriteString("package m\n\n")
+		if p.userFn && p.lateUse {
+			b.WriteString("func deriveEqual_(x int) int { return x }\nfunc deriveCompare_(x int) int { return x }\n\nvar _ = deriveEqual_(1) + deriveCompare_(2)\n\n")
+		}
+		b.WriteString("func useB() {\n")
 		for _, c := range p.calls[split:] {
 			b.WriteString("\t" + c.src() + "\n")
 		}
@@ -128,9 +140,12 @@ func checkC11(tier string) {
 					continue
 				}
 				for _, uf := range []bool{false, true} {
-					pkgs = append(pkgs, c11pkg{append([]c11call(nil), cur...), two, uf, false})
+					pkgs = append(pkgs, c11pkg{append([]c11call(nil), cur...), two, uf, false, false})
 					if len(cur) >= 2 && !two {
-						pkgs = append(pkgs, c11pkg{append([]c11call(nil), cur...), two, uf, true})
+						pkgs = append(pkgs, c11pkg{append([]c11call(nil), cur...), two, uf, false, true})
+					}
+					if two && uf {
+						pkgs = append(pkgs, c11pkg{append([]c11call(nil), cur...), two, uf, true, false})
 					}
 				}
 			}
@@ -164,7 +179,7 @@ func checkC11(tier string) {
 		files := it.p.files()
 		defer removeAll(dir)
 		if it.p.pregen {
-			first := c11pkg{it.p.calls[:1], false, it.p.userFn, false}
+			first := c11pkg{it.p.calls[:1], false, it.p.userFn, false, false}
 			writePkg(dir, first.files())
 			if pr := goderive(dir, "."); pr.Exit != 0 {
 				rep.Violation("rejected-but-must-succeed|flags=(no flags)|single-call", fmt.Sprintf("single call %s rejected: %s", first.label(), head(firstErrorLine(pr.Stderr), 200)), map[string]interface{}{"engine": "e2", "files": first.files()})
@@ -184,7 +199,7 @@ func checkC11(tier string) {
 			flagStr = "(no flags)"
 		}
 		viol := func(clause, what string) {
-			key := fmt.Sprintf("%s|flags=%s|conflict=%v|duplicate=%v|userfn=%v|pregen=%v", clause, flagStr, conflict, dup, it.p.userFn, it.p.pregen)
+			key := fmt.Sprintf("%s|flags=%s|conflict=%v|duplicate=%v|userfn=%v|pregen=%v|lateuse=%v", clause, flagStr, conflict, dup, it.p.userFn, it.p.pregen, it.p.lateUse)
 			rep.Violation(key, fmt.Sprintf("%s: calls %s with %s: %s; goderive exit %d: %s", clause, it.p.label(), flagStr, what, r.Exit, head(firstErrorLine(r.Stderr), 200)),
 				map[string]interface{}{"engine": "e2", "files": files, "flags": it.fl, "args": []string{"."}, "pregen_first_call": it.p.pregen, "stderr": tail(r.Stderr, 1500)})
 		}
@@ -245,6 +260,56 @@ func checkC11(tier string) {
 			}
 		}
 	})
+	// several packages in one invocation: a clash in any of them must fail the run
+	multi := 0
+	{
+		clean := "package %s\n\ntype T1 struct{ A int }\n\nfunc use() bool { return deriveEqual(&T1{}, &T1{}) }\n"
+		clashes := map[string]string{
+			"conflict":  "package %s\n\ntype T1 struct{ A int }\ntype T2 struct{ B int }\n\nfunc use() bool { return deriveEqualN(&T1{}, &T1{}) && deriveEqualN(&T2{}, &T2{}) }\n",
+			"duplicate": "package %s\n\ntype T1 struct{ A int }\n\nfunc use() bool { return deriveEqualN(&T1{}, &T1{}) && deriveEqualP(&T1{}, &T1{}) }\n",
+		}
+		type mrun struct {
+			kind, bad string
+			fl        []string
+		}
+		var mruns []mrun
+		for kind := range clashes {
+			for _, bad := range []string{"aaa", "zzz"} {
+				for _, fl := range flagSets {
+					for rep3 := 0; rep3 < 3; rep3++ {
+						mruns = append(mruns, mrun{kind, bad, fl})
+					}
+				}
+			}
+		}
+		multi = len(mruns)
+		parDo(len(mruns), func(i int) {
+			mr := mruns[i]
+			auton, dedup := contains(mr.fl, "-autoname"), contains(mr.fl, "-dedup")
+			resolved := (mr.kind == "conflict" && auton) || (mr.kind == "duplicate" && dedup)
+			files := pkgFiles{}
+			for _, n := range []string{"aaa", "mmm", "zzz"} {
+				if n == mr.bad {
+					files[n+"/x.go"] = fmt.Sprintf(clashes[mr.kind], n)
+				} else {
+					files[n+"/x.go"] = fmt.Sprintf(clean, n)
+				}
+			}
+			dir := filepath.Join(scratchDir, "c11", fmt.Sprintf("m%04d", i))
+			writePkg(dir, files)
+			defer removeAll(dir)
+			r := goderive(dir, append(append([]string{}, mr.fl...), "./...")...)
+			if !resolved && r.Exit == 0 {
+				rep.Violation(fmt.Sprintf("multi-package-clash-accepted|%s|flags=%s", mr.kind, strings.Join(mr.fl, " ")), fmt.Sprintf("goderive %s ./... over packages aaa, mmm, zzz exits 0 although package %s has a %s these flags do not resolve", strings.Join(mr.fl, " "), mr.bad, mr.kind),
+					map[string]interface{}{"engine": "e2", "files": files, "flags": mr.fl, "args": []string{"./..."}})
+			}
+			if resolved && r.Exit != 0 {
+				rep.Violation(fmt.Sprintf("multi-package-run-rejected|%s|flags=%s", mr.kind, strings.Join(mr.fl, " ")), fmt.Sprintf("goderive %s ./... fails although the flags resolve the %s in package %s: %s", strings.Join(mr.fl, " "), mr.kind, mr.bad, head(firstErrorLine(r.Stderr), 200)),
+					map[string]interface{}{"engine": "e2", "files": files, "flags": mr.fl, "args": []string{"./..."}})
+			}
+		})
+	}
+	rep.Cov["multi_package_runs"] = multi
 	states := len(pkgs)
 	rep.Cov["states"] = states
 	rep.Cov["transitions"] = len(items)
